@@ -44,6 +44,7 @@ func sortedCopy(xs []string) []string {
 func (w *World) componentOf(obj string) string {
 	if strings.HasPrefix(obj, "sub:") {
 		slot := strings.TrimPrefix(obj, "sub:")
+		slot, _, _ = strings.Cut(slot, "#") // "#n": n-th object of a rule that wraps anew each time
 		for _, pr := range w.P.Procs {
 			for _, r := range pr.Rules {
 				if r.Sub == slot {
